@@ -318,6 +318,10 @@ class Driver:
         p = self.spec['icp'] + n % (self.spec['fcp'] - self.spec['icp'] + 1)
         await self._run('stop-point', commands.stop(
             self.sim.schd, None, cycle_point=self.to_str[p]), point=p)
+        # accepted iff the scheduler's stop point is now this point
+        ev = self.sim.trace[-1]
+        ev['accepted'] = (
+            str(self.sim.schd.pool.stop_point) == self.to_str[p])
 
     async def cmd_stop_task(self, n):
         from cylc.flow import commands
